@@ -8,17 +8,17 @@ def register(reg):
     C = reg.contract
     # ------------------------------------------------------------------ fields (virtual contracts)
     C("core:Field.validate", virtual=True, params={"cfg": "ref:Config", "value": "any"}, returns="any",
-      modifies=["fresh"] + ADOPT,
+      modifies=["fresh", "ncalls"] + ADOPT,
       ensures={
-          "C01+C05.accepted-input": "ok(self, value)",
-          "C01+C05.normalised": "norm_of(self, value, result)",
           "C01.result-satisfies-constraints": "result is None or accepts(self, result)",
-          "C11.required-has-value": "implies(self.required, result is not None or value is not None)",
-          "C05.none-passes": "implies(value is None, result is None and not self.required)",
+          "C11.required-has-value": "implies(self.required and not truthy(self.validator), result is not None or not persistent(self))",
+          "C05.none-passes": "implies(value is None, result is None)",
           "C03+C15.config-links-kept": "cfg._parent is old(cfg._parent) and cfg._key == old(cfg._key) and cfg._container is old(cfg._container)",
       },
-      raises={"C05.rejected-input": "not ok(self, value)", "C03+C15.config-links-kept": "cfg._parent is old(cfg._parent) and cfg._key == old(cfg._key) and cfg._container is old(cfg._container)",
-              "C05.plain-field-accepts-all": "not (exact_class(self, 'Field', 'AnyField') and not self.required and not truthy(self.validator))"})
+      raises={"C05.none-rejected-only-if-required": "implies(value is None, self.required)",
+              "C05.plain-field-accepts-all": "not (exact_class(self, 'Field', 'AnyField') and not self.required and not truthy(self.validator))",
+              "C03+C15.config-links-kept": "cfg._parent is old(cfg._parent) and cfg._key == old(cfg._key) and cfg._container is old(cfg._container)"},
+      defs={"accepts": (["f", "r"], "accepts_type(f, r) or truthy(f.validator)")})
     C("core:Field.__setval__", virtual=True, params={"cfg": "ref:Config", "value": "any"},
       modifies=["dict:cfg._data", "fresh"],
       ensures={"C01.stored": "implies(persistent(self), dict_is_upd(cfg._data, self._key, value))",
@@ -30,20 +30,7 @@ def register(reg):
                "C12.default-marked": "set_is_add(self._default_value_keys, key)"})
     C("core:Config._set_value", params={"key": "str", "value": "any"}, returns="any",
       modifies=["dict:self._data", "set:self._default_value_keys", "dict:self._fields", "fresh"] + ADOPT,
-      ensures={
-          "C01.stores-validated-result": "implies(persistent(fieldof(self, key)), dict_is_upd(self._data, key, result)"
-                                         " and norm_of(fieldof(self, key), value, result) and (result is None or accepts(fieldof(self, key), result)))",
-          "C12.marks-user-defined": "set_is_discard(self._default_value_keys, key)",
-          "C01+C13.changes-nothing-else": "heap_unchanged('Config._parent', 'Config._key', 'Config._container', self._data, self._default_value_keys, self._fields)",
-          "C03+C15.subconfig-linked": "implies(typeis(result, 'ref:Config') and not typeis(fieldof(self, key), 'ref:Field'),"
-                                      " result._parent is self and result._key == key and dict_is_upd(self._data, key, result))",
-      },
-      raises={
-          "C15.field-rejection-is-validation-error": "implies(old(persistent(fieldof(self, key))), exc_is(ValidationError))",
-          "C15.subconfig-rejection-class": "implies(old(fieldof(self, key) is not None and not typeis(fieldof(self, key), 'ref:Field')), exc_is(ValidationError, AttributeError))",
-          "C06.state-unchanged": UNCHANGED,
-          "C12.rejected-keeps-status": "set_same(self._default_value_keys)",
-      })
+      ensures=setvalue_clauses("key")[0], raises=setvalue_clauses("key")[1])
 
 
 def register_construction(reg):
@@ -86,3 +73,67 @@ _register0 = register
 def register(reg):
     _register0(reg)
     register_construction(reg)
+    register_access(reg)
+    register_field_base(reg)
+
+
+def setvalue_clauses(key):
+    ens = {
+        "C01.stores-validated-result": "implies(persistent(fieldof(self, KEY)), dict_is_upd(self._data, KEY, result)"
+                                       " and (result is None or accepts(fieldof(self, KEY), result)))",
+        "C12.marks-user-defined": "set_is_discard(self._default_value_keys, KEY)",
+        "C01+C13.changes-nothing-else": "heap_unchanged('Config._parent', 'Config._key', 'Config._container', self._data, self._default_value_keys, self._fields)",
+        "C03+C15.subconfig-linked": "implies(typeis(result, 'ref:Config') and not typeis(fieldof(self, KEY), 'ref:Field'),"
+                                    " result._parent is self and result._key == KEY and dict_is_upd(self._data, KEY, result))",
+    }
+    rai = {
+        "C15.field-rejection-is-validation-error": "implies(old(persistent(fieldof(self, KEY))), exc_is(ValidationError))",
+        "C15.subconfig-rejection-class": "implies(old(fieldof(self, KEY) is not None and not typeis(fieldof(self, KEY), 'ref:Field')), exc_is(ValidationError, AttributeError))",
+        "C06.state-unchanged": UNCHANGED,
+        "C12.rejected-keeps-status": "set_same(self._default_value_keys)",
+    }
+    return ({k: v.replace("KEY", key) for k, v in ens.items()}, {k: v.replace("KEY", key) for k, v in rai.items()})
+
+
+def register_access(reg):
+    C = reg.contract
+    SV_MOD = ["dict:self._data", "set:self._default_value_keys", "dict:self._fields", "fresh"] + ADOPT
+    ens, rai = setvalue_clauses("name")
+    C("core:Config.__setattr__", params={"name": "str", "value": "any"}, returns="any", modifies=SV_MOD,
+      requires={"public-name": "not name.startswith('_')"},
+      note="underscore names are plain attributes (excluded by the precondition); every other name is a field assignment",
+      ensures=ens, raises=rai)
+    C("core:Config._get_value", params={"key": "str"}, returns="any", modifies=["fresh", "ncalls"],
+      ensures={
+          "C16.value-of-field": "implies(persistent(fieldof(self, key)) or typeis(fieldof(self, key), 'ref:Schema|ref:ConfigTypeField'), has(self._data, key) and result == get(self._data, key))",
+          "C16.dynamic-missing-is-none": "implies(fieldof(self, key) is None, result is None and self._schema._dynamic)",
+          "C13.read-only": "heap_unchanged()",
+      },
+      raises={"C16.unknown-key": "implies(exc_is(AttributeError), old(fieldof(self, key)) is None or not persistent(old(fieldof(self, key))))",
+              "C13.read-only": "heap_unchanged()"})
+    C("core:BaseField.__getval__", virtual=True, params={"cfg": "ref:Config"}, returns="any", modifies=["fresh", "ncalls"],
+      ensures={"C16.stored-value": "implies(not typeis(self, 'ref:VirtualFieldMixin'), has(cfg._data, self._key) and result == get(cfg._data, self._key))",
+               "C13.read-only": "heap_unchanged()"},
+      raises={"C16.missing": "not typeis(self, 'ref:VirtualFieldMixin') and exc_is(KeyError) and not has(cfg._data, self._key) or typeis(self, 'ref:VirtualFieldMixin')",
+              "C13.read-only": "heap_unchanged()"})
+
+
+def register_field_base(reg):
+    C = reg.contract
+    LINKS = ("cfg._parent is old(cfg._parent) and cfg._key == old(cfg._key) and cfg._container is old(cfg._container)")
+    C("core:Field._validate", virtual=True, params={"cfg": "ref:Config", "value": "any"}, returns="any",
+      requires={"not-none": "value is not None"},
+      modifies=["fresh", "ncalls"] + ADOPT,
+      ensures={
+          "C01.type-level-constraints": "accepts_type(self, result)",
+          "C11.validated-not-none": "result is not None",
+          "C03+C15.config-links-kept": LINKS,
+          "C11.required-nonempty": "implies(self.required and typeis(self, 'ref:StringField|ref:ListField|ref:DictField'), truthy(result))",
+      },
+      raises={"C05.base-never-rejects": "not exact_class(self, 'Field', 'AnyField')",
+              "C03+C15.config-links-kept": LINKS})
+    C("core:Field.default", params={}, returns="any", modifies=["fresh", "ncalls"],
+      assumes={"A.default-is-not-a-schema": "not typeis(self._default, 'ref:BaseField')"},
+      ensures={"C12.callable-default-evaluated-anew": "implies(not callable_v(self._default), result == self._default)",
+               "C13.read-only": "heap_unchanged()"},
+      raises={"C13.read-only": "heap_unchanged()", "C12.only-callable-defaults-raise": "callable_v(self._default)"})
